@@ -45,6 +45,7 @@ THEOREMS = {
            _t("C06Grid", "FlooVerif.C06G.spec_autolinks_in_graph") +
            _t("C06Conn", "FlooVerif.C06C.connectPairs_edges", "FlooVerif.C06C.connectPairs_links", "FlooVerif.C06C.connectPairs_only") + _t("C06Tree", "FlooVerif.C06T.tree_ext") +
            _t("C18Tree", "FlooVerif.C18T.level_selection_agrees", "FlooVerif.C18T.lvlNodes_single", "FlooVerif.C18T.prodNames_eq_cartesian") +
+           _t("C18Range", "FlooVerif.C18T.range_selection_agrees", "FlooVerif.C18T.idx_selection_agrees", "FlooVerif.C18T.cartNames_eq_cartesian") +
            _t("C04U", "FlooVerif.C04U.array_is_grid"),
     "C07": _t("C07", "FlooVerif.C07U.id_eq_uid", "FlooVerif.C07U.idOf_eq", "FlooVerif.C07U.uids_dense", "FlooVerif.C07U.id_fits") +
            _t("C07XY", "FlooVerif.C07U.xy_ids_fit", "FlooVerif.C07U.coord_fits", "FlooVerif.C07U.listMin_le", "FlooVerif.C07U.listMax_ge"),
@@ -81,7 +82,7 @@ THEOREMS = {
               "FlooVerif.C17.setIdx_unbased", "FlooVerif.C17.rejects_contradictory", "FlooVerif.C17.rejects_empty",
               "FlooVerif.C17.rejects_negative", "FlooVerif.C17.rejects_underspecified"),
     "C18": _t("C18Tree", "FlooVerif.C18T.lvl_select_in", "FlooVerif.C18T.lvl_select_tree", "FlooVerif.C18T.level_of_tree", "FlooVerif.C18T.level_beyond", "FlooVerif.C18T.tree_nodes", "FlooVerif.C18T.tree_inTree", "FlooVerif.C18T.other_tree_excluded") +
-           _t("C18", "FlooVerif.C18.not_inTree_of_next") + _t("C18Names", "FlooVerif.C18N.name1_inj", "FlooVerif.C18N.name2_inj", "FlooVerif.C18N.split_unique") +
+           _t("C18", "FlooVerif.C18.not_inTree_of_next") + _t("C18Range", "FlooVerif.C18T.cartNames_eq_cartesian") + _t("C18Names", "FlooVerif.C18N.name1_inj", "FlooVerif.C18N.name2_inj", "FlooVerif.C18N.split_unique") +
            _t("C18", "FlooVerif.C18.range_product", "FlooVerif.C18.range_error", "FlooVerif.C18.range_empty",
               "FlooVerif.C18.pyRange_eq_seqIncl", "FlooVerif.C18.idx_spec", "FlooVerif.C18.lvl_spec"),
     "C19": _t("HwTieTb", "FlooVerif.HwTie.tbJobs_pinned") + _t("C19", "FlooVerif.C19.jobs_in_range", "FlooVerif.C19.base_addresses", "FlooVerif.C19.finite_ok",
